@@ -79,14 +79,7 @@ fn attainable(c: &Case) -> Vec<i64> {
 /// W1 keeps K = 5 in the events (bn[5] > 0, column -inf); W2 / W3 are written with K = 6.
 fn wildcard_variant(rng: &mut impl Rng, mut c: Case, which: usize) -> Case {
     match which % 3 {
-        0 => {
-            c.bn = c.bn.iter().map(|&x| 2 * x).collect();
-            c.bd *= 2;
-            let j = (0..4).max_by_key(|&j| c.bn[j]).unwrap();
-            c.bn[j] -= 1;
-            c.bn.push(1);
-            c
-        }
+        0 => { give_wildcard_frequency(&mut c); c }
         1 => {
             let lo = c.cells.iter().flatten().cloned().min().unwrap();
             let hi = c.cells.iter().flatten().cloned().max().unwrap();
@@ -117,12 +110,21 @@ fn with_wildcard(rng: &mut impl Rng, mut c: Case) -> Case {
     let lo = c.cells.iter().flatten().cloned().min().unwrap();
     let hi = c.cells.iter().flatten().cloned().max().unwrap();
     for row in c.cells.iter_mut() { let v = rng.gen_range(lo..=hi); row.push(v); }
-    c.bn = c.bn.iter().map(|&x| 2 * x).collect();
-    c.bd *= 2;
+    give_wildcard_frequency(&mut c);
+    c
+}
+
+/// Move a little background mass to the wildcard.  Dyadic backgrounds are doubled first (still exact in f32); the
+/// decimal one keeps its denominator (f32 cannot hold 0.3: a larger denominator would bring the library's own masses
+/// within half a unit of the rational ones, which is where the midpoint queries of C13 live).
+fn give_wildcard_frequency(c: &mut Case) {
+    if c.bd != 10 {
+        c.bn = c.bn.iter().map(|&x| 2 * x).collect();
+        c.bd *= 2;
+    }
     let j = (0..4).max_by_key(|&j| c.bn[j]).unwrap();
     c.bn[j] -= 1;
     c.bn.push(1);
-    c
 }
 
 /// background numerators for the event: one entry per column of `pssm_json` (K entries)
